@@ -19,7 +19,7 @@ import json  # noqa: F401
 from sim import env, fingerprint as fp, gen, ops, sched
 
 PROP = 'C14'
-MODES = ('dense', 'mixed', 'purge', 'match', 'sweep', 'msweep')
+MODES = ('dense', 'mixed', 'purge', 'match', 'sweep', 'msweep', 'msweep2')
 BOUNDS = (1, 2, 3, 5, 8, 500)
 
 # Patterns that pack the five "special" functional pseudo-classes densely (S1 of DESIGN.md).
@@ -273,7 +273,7 @@ def reference_pass(sv, ctx, workload, count_steps=True):
                 ss.append(c.n)
                 if workload.get('mode') == 'sweep':
                     workload.setdefault('_after_return', {})[(len(ref), len(rr))] = c.after_return_steps
-                elif workload.get('mode') == 'msweep' and not ref and not rr:
+                elif workload.get('mode') in ('msweep', 'msweep2') and not ref and not rr:
                     workload['_sites'] = sorted([k[0], k[1], len(v)] for k, v in c.sites.items())
             else:
                 res = ops.safe_run(ctx, op)
@@ -299,7 +299,7 @@ def _reference_child(sv, workload, count_steps):
             out = reference_pass(sv, ctx, workload, count_steps)
             if workload.get('mode') == 'sweep':
                 out = tuple(out) + ({f'{a}:{b}': v for (a, b), v in workload.pop('_after_return', {}).items()},)
-            elif workload.get('mode') == 'msweep':
+            elif workload.get('mode') in ('msweep', 'msweep2'):
                 out = tuple(out) + (workload.pop('_sites', []),)
             return out
     except env.SlowOperation:
@@ -348,7 +348,8 @@ def execute(sv, workload, policy_spec, sched_seed=0, bound=None, docs=None, coun
     kinds = [[('compile' if op['op'] == 'compile' else ('purge' if op['op'] == 'purge' else 'query')) for op in prog]
              for prog in workload['programs']]
     sim = sched.Sim(programs, policy, prefix=env.repo_pkg_dir(), op_kinds=kinds,
-                    opcodes=bool(workload.get('opcodes')), max_steps=12_000_000)
+                    opcodes=bool(workload.get('opcodes')), max_steps=12_000_000,
+                    record_sites=policy_spec.get('record_sites'))
     sim.run()
 
     violation = None
@@ -417,6 +418,7 @@ def execute(sv, workload, policy_spec, sched_seed=0, bound=None, docs=None, coun
         'cache': cache_sizes,
         'nthreads': len(sim.threads),
         'nops': sum(len(p) for p in workload['programs']),
+        'site_visits': sorted([k[0], k[1], v] for k, v in sim.site_visits.items()),
     }
 
 
@@ -652,9 +654,110 @@ def run_msweep(sv, index, bound):
     return res
 
 
+# ---------------------------------------------------------------------------
+# depth-2 site sweep: thread A is parked part-way through its operation (so that whatever it holds only while it
+# runs is alive), thread B runs up to one of its code sites and is parked there, A runs to completion (releasing what
+# it held), B resumes - the check-then-act windows whose check is only true WHILE a peer is mid-operation
+# ---------------------------------------------------------------------------
+
+_NS = {'h': gen.NS_XHTML, 'x': gen.NS_X}
+MSWEEP2_KEYS = [
+    {'pattern': 'x|item > h|p:nth-child(foo)', 'ns': _NS, 'custom': None, 'flags': 0},       # 0 malformed, namespaces
+    {'pattern': 'x|item h|p.a', 'ns': dict(_NS), 'custom': None, 'flags': 0},                  # 1 valid, equal namespaces
+    {'pattern': ':--c, :--a', 'ns': None, 'custom': _SWEEP_CUSTOM, 'flags': 0},                # 2 alias chain
+    {'pattern': 'p:--b', 'ns': None, 'custom': dict(_SWEEP_CUSTOM), 'flags': 0},               # 3 equal custom map
+    {'pattern': 'div > p.a:lang(en)', 'ns': None, 'custom': None, 'flags': 0},                 # 4 plain
+    {'pattern': 'ul li\n a[href\n=x', 'ns': None, 'custom': None, 'flags': 0},                 # 5 malformed, plain
+    {'pattern': ':--undefined p', 'ns': dict(_NS), 'custom': dict(_SWEEP_CUSTOM), 'flags': 0},  # 6 fails late, both maps
+]
+MSWEEP2_BATCH = 40
+MSWEEP2_FRACTIONS = (0.25, 0.6, 0.9)
+
+
+def msweep2_pairs():
+    c = lambda k: {'op': 'compile', 'key': k}  # noqa: E731
+    sel = lambda k: {'op': 'select', 'key': k, 'doc': 0, 'target': -1, 'form': 'module', 'limit': 0}  # noqa: E731
+    # (B = the thread swept over its sites, A = the thread parked mid-operation and completed inside B's gap)
+    return [(c(1), c(0)), (c(3), c(2)), (c(4), c(4)), (sel(4), sel(4)), (c(5), c(5)), (c(1), c(6)), (c(3), c(6)), (c(0), c(0))]
+
+
+def run_msweep2(sv, index, bound):
+    from sim import runner
+    pairs = msweep2_pairs()
+    combos = len(pairs) * len(MSWEEP2_FRACTIONS)
+    ci, batch = index % combos, index // combos
+    pi, fi = ci % len(pairs), ci // len(pairs)
+    b_op, a_op = pairs[pi]
+    workload = {'mode': 'msweep2', 'keys': MSWEEP2_KEYS, 'docs': [_SWEEP_DOC], 'programs': [[b_op], [a_op]],
+                'lower_pressure': 0, 'opcodes': False, 'pair': pi}
+    try:
+        got = runner.isolated(_reference_child, sv, workload, True, hang_s=20)
+    except runner.IsolatedTimeout:
+        return {'discarded': 'reference-pass-killed-at-deadline(stuck-in-C-code)'}
+    if isinstance(got, dict):
+        return got
+    a_len = got[1][1][0]
+    a_step = max(2, int(a_len * MSWEEP2_FRACTIONS[fi]))
+    # which code sites does B reach WHILE A is parked mid-operation?  (Paths that only exist then - the "somebody else
+    # is already at it" branches - are invisible when B runs alone.)
+    try:
+        r0 = runner.isolated(execute, sv, workload, {'name': 'k-preempt', 'points': [[1, a_step + 1, None]], 'first': 1,
+                                                     'record_sites': 0}, 0, bound, None, False, got[:3], hang_s=60)
+    except runner.IsolatedTimeout:
+        return {'discarded': 'reference-pass-killed-at-deadline(stuck-in-C-code)'}
+    if r0.get('discarded'):
+        return r0
+    if r0.get('violation'):
+        r0 = dict(r0)
+        r0['workload'] = workload
+        r0['bound'] = bound
+        return r0
+    sites = r0['site_visits']
+    allp = [[fn, ln, 1] for fn, ln, n in sites] + [[fn, ln, 2] for fn, ln, n in sites if n > 1]
+    points = allp[batch * MSWEEP2_BATCH:(batch + 1) * MSWEEP2_BATCH]
+    if not points:
+        return {'discarded': 'sweep-batch-beyond-end-of-operation'}
+    res = None
+    digests = []
+    tot_steps = tot_sw = 0
+    for fn, ln, k in points:
+        # A starts, is parked at a_step (the other thread runs until it finishes or is itself parked), B is parked at
+        # its site (A then runs to completion), B resumes
+        spec = {'name': 'k-preempt', 'points': [[1, a_step + 1, None]], 'sites': [[0, fn, ln, k, None]], 'first': 1}
+        try:
+            r = runner.isolated(execute, sv, workload, spec, 0, bound, None, False, got[:3], hang_s=60)
+        except runner.IsolatedTimeout:
+            continue
+        digests.append(r['digest'])
+        tot_steps += r['steps']
+        tot_sw += r['switches']
+        if res is None or (r['violation'] and not res['violation']):
+            res = r
+        if r['violation']:
+            break
+    if res is None:
+        return {'discarded': 'sweep-batch-beyond-end-of-operation'}
+    res = dict(res)
+    res['steps'] = tot_steps
+    res['switches'] = tot_sw
+    if not res['violation']:
+        res['digest'] = fp.h(digests, 12)
+    res['probes'] = dict(res['probes'])
+    res['probes']['msweep2_injection_points'] = len(digests)
+    res['workload'] = workload
+    res['bound'] = bound
+    res['sweep'] = {'kind': 'depth-2-site-sweep', 'pair': pi, 'batch': batch, 'swept': b_op, 'parked_then_completed': a_op,
+                    'parked_at_step': a_step, 'of_steps': a_len, 'distinct_sites': len(sites), 'points_total': len(allp)}
+    return res
+
+
 def run_seeded(sv, run_seed, mode, bound, index=None, active=None):
     """One seeded run: workload, policy and schedule all derive from ``run_seed``."""
 
+    if mode == 'msweep2':
+        res = run_msweep2(sv, index or 0, bound)
+        res['run_seed'] = run_seed
+        return res
     if mode == 'msweep':
         res = run_msweep(sv, index or 0, bound)
         res['run_seed'] = run_seed
@@ -719,8 +822,12 @@ def plan(tier):
     cfgs.append({'name': 'msweep-k500', 'mode': 'msweep', 'bound': 500, 'chunk': 8,
                  'nruns': npairs * (9 if tier != 'thorough' else 17)})
     # the systematic sweeps are dispatched first in every round: a deadline cut then only shortens the random sampling
+    # depth-2 site sweep (8 pairs x 3 parking points of the peer x the sites of the swept thread)
+    combos = len(msweep2_pairs()) * len(MSWEEP2_FRACTIONS)
+    cfgs.append({'name': 'msweep2-k500', 'mode': 'msweep2', 'bound': 500, 'chunk': 6,
+                 'nruns': combos * (9 if tier != 'thorough' else 22)})
     for c in cfgs:
-        if c['mode'] in ('sweep', 'msweep'):
+        if c['mode'] in ('sweep', 'msweep', 'msweep2'):
             c['priority'] = True
             c['det_runs'] = 3
     return {'budget_s': budget, 'configs': cfgs, 'minimise_budget': 300}
@@ -1080,6 +1187,8 @@ def evidence(agg, info, plan_, tier):
                          'whole-peer-operation-injected-at-a-step-of-a-compile/select(sweep)': probes.get('sweep_injection_points', 0),
                          'whole-peer-query-injected-at-a-code-site-of-a-query/failing-compile(msweep)':
                              probes.get('msweep_injection_points', 0),
+                         'peer-completed-inside-a-gap-at-a-code-site-while-it-was-itself-mid-operation(msweep2)':
+                             probes.get('msweep2_injection_points', 0),
                          'pre-emptions(all policies)': c.get('preempts', 0)},
         'probes': probes,
         'runs_reaching_probe': runs_with,
